@@ -13,6 +13,9 @@ THEOREMS = [
     "Gozod.C12.c12_pure", "Gozod.C12.c12_pure_obs", "Gozod.C12.c12_deterministic", "Gozod.C12.c12_twice",
     "Gozod.C12.c12_order_invariant", "Gozod.C12.c12_doc_deterministic", "Gozod.C12.entriesOf_nodup",
     "Gozod.C12.c12_hist", "Gozod.C12.today_convert_pollutes_parent", "Gozod.C12.today_applyBag_order_dependent",
+    "Gozod.C12.c12_annotate_idem", "Gozod.C12.annotateEntry_eq", "Gozod.C12.c12_reg_frame", "Gozod.C12.c12_reg_twice",
+    "Gozod.C12.c12_reg_after_others", "Gozod.C12.c12_reg_partial", "Gozod.C12.absorbed_after_conversion",
+    "Gozod.C12.conv_registers_meta_check", "Gozod.C12.c12_reg_full_false", "Gozod.C12.merging_examples_not_idempotent",
 ]
 
 
@@ -26,16 +29,25 @@ def mask(verdicts, steps):
 
 
 def key(op, impl, M, S):
+    """Class of the first step that fails. A conversion whose only effect is the one the model derives from the code —
+    the Describe/Meta checks of a visited schema being registered in GlobalRegistry (document equal to the isolated
+    twin's, the changed schemas exactly the predicted ones) — is the listed class `conversion-registers-meta-check`;
+    any other failing step of the history takes precedence."""
     head, steps = c08.steps_of(op)
     iv = impl.split(" ")[0].split(";")
+    mv = (M or "").split(" ")[0].split(";")
+    lazy = None
     for k, st in enumerate(steps):
         if k >= len(iv) or iv[k] in ("1:", "-"):
             continue
         typ = st[-1].partition("@")[2]
         if st[1] == "conv":
+            if iv[k].startswith("1:") and k < len(mv) and mv[k] == iv[k] and st[4] not in ("0", "scout-failed") and " S:" not in impl:
+                lazy = lazy or "conversion-registers-meta-check"
+                continue
             return ("doc-differs:" if iv[k].startswith("0") else "conversion-changes-live-schema:") + typ
         return "parse-changes-live-schema:" + typ
-    return "tie:" + head[1]
+    return lazy or "tie:" + head[1]
 
 
 def rewrite(data):
